@@ -1,5 +1,5 @@
 """C01 End-to-end transparency of the tunnel: wiring skeleton (entry points, UDP reply routing, reserved id)."""
-from an import (Tracer, guard_at, strip, strip_casts, walk, fmt, callee, const_eval, Inter, N)
+from an import (Explorer, Tracer, guard_at, strip, strip_casts, walk, fmt, callee, const_eval, Inter, N)
 from muxcommon import derives_from_call, credit_leak_after_take
 from mir import loc_str
 import rules_c03, rules_c18
@@ -490,7 +490,10 @@ def check(facts, rep, tier, cfg):
                         if from_recv_buf:
                             cut = [bj for bj, t2 in b.calls() if callee(t2) and callee(t2)["name"] == "truncate" and len(t2["args"]) > 1 and
                                    any(x.kind == "call" and x[6] == "recv_from" for x in walk(tr.operand(t2["args"][1])))]
-                            if not any(b.dominates(c_, bi) for c_ in cut):
+                            RECVS = ("recv_from", "try_recv_from", "recv_buf_from", "poll_recv_from")
+                            sliced = any(x.kind == "call" and x[6] in ("index", "get", "split_at", "take") and
+                                         any(y.kind == "call" and y[6] in RECVS for y in walk(x)) for x in walk(dn))
+                            if not any(b.dominates(c_, bi) for c_ in cut) and not sliced:
                                 odd = odd + ["(no truncate(received length) before use)"]
                         if odd or bufmut:
                             rep.bad("C01.R9", "payload-unmodified/%s" % b.path.split("::{")[0], where,
@@ -498,6 +501,83 @@ def check(facts, rep, tier, cfg):
                         else:
                             rep.ok("C01.R9", "payload-unmodified/%s#%d" % (b.path.split("::{")[0], k9), where, "data <- receive buffer / parser payload via conversions only")
         rep.floor("C01.R9", "Datagram construction sites", k9, 3)
+        # ---- R15 sockets that carry tunnel data are closed gracefully
+        rep.rule("C01.R15", "TCP sockets that carry tunnel data keep the default close semantics: nothing sets SO_LINGER on them (with a zero / short "
+                            "linger, dropping the socket after the bridge finished discards what is still queued and resets the connection: the "
+                            "tail of the data and the half-close are lost)")
+        k15 = 0
+        bad15 = 0
+        for b in crate.bodies:
+            if "::tests::" in b.path or b.file.endswith("tests.rs"):
+                continue
+            for bi, t in b.calls():
+                c = callee(t)
+                if not c:
+                    continue
+                owner = c["path"]
+                if not any(k in owner for k in ("TcpSocket", "TcpStream", "socket2::Socket", "socket2::SockRef", "UnixStream")):
+                    continue
+                k15 += 1
+                if c["name"] in ("set_linger", "set_zero_linger", "set_linger_unchecked"):
+                    bad15 += 1
+                    rep.bad("C01.R15", "no-linger/%s" % b.path.split("::{")[0], "%s (%s)" % (loc_str(t["loc"]), b.path),
+                            "`%s` on a socket of the tunnel path: when the socket is dropped the kernel discards unsent data and sends RST, so a "
+                            "slow reader loses the tail of the stream and sees a reset instead of the half-close" % c["name"])
+        if not bad15:
+            rep.ok("C01.R15", "no-linger", "", "%d socket method calls inspected, none sets SO_LINGER" % k15, nontrivial=False)
+        rep.floor("C01.R15", "socket method calls inspected", k15, 4)
+        # ---- R14 the flow id of every datagram a client-side UDP handler forwards is the id registered for the sender of THAT datagram
+        rep.rule("C01.R14", "client UDP handlers: on every path, between receiving a datagram from the local socket and building the Datagram frame "
+                            "for it, the sender is (re-)registered (add_udp_client) - a frame is never built with the id left over from an earlier "
+                            "datagram, so replies reach exactly the client that sent the datagram")
+        k14 = 0
+        RECVS14 = ("recv_from", "try_recv_from", "recv_buf_from", "poll_recv_from")
+        from an import logical_root as _lr14
+        recv_fns = set()
+        for b in crate.bodies:
+            if "/src/client/" in b.file and any(callee(t) and callee(t)["name"] in RECVS14 and "UdpSocket" in callee(t)["path"] for _, t in b.calls()):
+                recv_fns.add(_lr14(facts, b).path)
+
+        def is_recv14(c):
+            return bool(c) and ((c["name"] in RECVS14 and "UdpSocket" in c["path"]) or
+                                any(c["path"].split("::<")[0].endswith(p_.split("::", 1)[-1]) for p_ in recv_fns))
+        for b in crate.bodies:
+            if "/src/client/" not in b.file or "::tests::" in b.path:
+                continue
+            has_dg = any(st["k"] == "Assign" and st["rv"]["k"] == "Aggregate" and st["rv"]["agg"].get("adt", "").endswith("penguin_mux::Datagram")
+                         for blk in b.blocks if not blk["cleanup"] for st in blk["stmts"])
+            has_recv = any(is_recv14(callee(t)) for _, t in b.calls())
+            if not (has_dg and has_recv):
+                continue
+            k14 += 1
+            rep.analysed(b)
+            stale = []
+
+            def on_term14(bb, t, auto, store):
+                if t["k"] == "Call":
+                    c = callee(t)
+                    if is_recv14(c):
+                        return "received"
+                    if c and c["name"] == "add_udp_client":
+                        return "registered"
+                return auto
+
+            def on_stmt14(bb, idx, st, auto):
+                if st["k"] == "Assign" and st["rv"]["k"] == "Aggregate" and st["rv"]["agg"].get("adt", "").endswith("penguin_mux::Datagram") \
+                        and auto == "received":
+                    stale.append(st)
+                return auto
+            ex14 = Explorer(facts, b, on_term=on_term14, on_stmt=on_stmt14)
+            ex14.run(0, "start")
+            rep.paths += len(ex14.seen)
+            w14 = "%s (%s)" % (loc_str(b.loc), b.path)
+            if stale:
+                rep.bad("C01.R14", "fresh-client-id/%s" % b.path.split("::{")[0], "%s (%s)" % (loc_str(stale[0]["loc"]), b.path),
+                        "a Datagram frame can be built for a datagram whose sender was not looked up / registered after it was received: it goes "
+                        "out under the flow id of an earlier sender, and the reply is delivered to that other local client")
+            else:
+                rep.ok("C01.R14", "fresh-client-id/%s" % b.path.split("::{")[0], w14, "every received datagram is registered before its frame is built")
+        rep.floor("C01.R14", "client UDP handlers that receive and forward datagrams", k14, 2)
 
     # ---- R10 a per-flow forwarder that has exited is forgotten, so the next datagram of that flow starts a new one
     if has_server:
